@@ -61,6 +61,9 @@ Judge(k) ==
                    /\ tbal'[A(k).c] = tbal[A(k).c] - A(k).amt /\ cbal'[A(k).d] = cbal[A(k).d] + A(k).amt
                    /\ \A d \in Denoms \ {A(k).d} : cbal'[d] = cbal[d]
                    /\ \A x \in Contracts \ {A(k).c} : tbal'[x] = tbal[x])
+     (* a conversion that ends by removing the pair of a destroyed contract (the clean-up branch) is not a conversion: it moves nothing *)
+     /\ Report(k, "C11.CleanupMovesNothing", (ln(k).ev \in {"ConvertCoin", "ConvertERC20"} /\ ln(k).res = "ok" /\ pairs' # pairs) =>
+                   (cbal' = cbal /\ escrow' = escrow /\ csup' = csup /\ tbal' = tbal /\ tesc' = tesc))
 C_Step(k) ==
   LET a == A(k)  ok == ln(k).res = "ok" IN
   CASE ln(k).ev = "RegisterCoin"  -> RegisterCoinEff(a.base, a.name) /\ ok = RegisterCoinOK(a.base, a.name)
